@@ -335,12 +335,35 @@ def run_one(rec, cfg, pts, yvals, workdir):
     return compare(rec, cfg, obj, pts, [np.array(a, dtype=float) for a in yvals])
 
 
-def pred_jax_stale_sparsity(scn, info):
-    """jax components without declared partials sample the sparsity at the first point and delete all-zero blocks: a
-    max/min branch that was inactive there stays zero"""
+def nonsmooth(rec):
+    return bool(tree_funcs(rec['e']) & {'maximum', 'minimum', 'abs'})
+
+
+def pred_single_input_jax(scn, info):
+    """ExplicitFuncComp / ImplicitFuncComp, method='jax', forward direction, a function of one differentiable argument"""
     cfg = scn.get('cfg', {})
-    return (bool(scn.get('branch')) and cfg.get('kind') in ('jexp', 'jimp') and cfg.get('decl') == 'auto'
-            and not cfg.get('col') and scn.get('point', 0) > 0)
+    return (cfg.get('kind') in ('efc', 'ifc') and cfg.get('meth') == 'jax'
+            and 'must be tuples or lists' in str((info or {}).get('observed', '')))
+
+
+def pred_ifc_jax_coloring_direction(scn, info):
+    """ImplicitFuncComp, method='jax', declare_coloring: the coloring direction differs from the problem's mode"""
+    cfg = scn.get('cfg', {})
+    return (cfg.get('kind') == 'ifc' and cfg.get('meth') == 'jax' and cfg.get('col')
+            and "'NoneType' object is not subscriptable" in str((info or {}).get('observed', '')))
+
+
+def pred_jimp_coloring(scn, info):
+    """JaxImplicitComponent with declare_coloring: compute_sparsity returns a bare matrix where System._compute_coloring
+    unpacks (sparsity, info)"""
+    cfg = scn.get('cfg', {})
+    return (cfg.get('kind') == 'jimp' and bool(cfg.get('col'))
+            and "'coo_matrix' object is not subscriptable" in str((info or {}).get('observed', '')))
+
+
+PREDS = {'C34-funccomp-jax-single-input': pred_single_input_jax,
+         'C34-implicitfunccomp-jax-coloring-direction': pred_ifc_jax_coloring_direction,
+         'C34-jaximplicit-coloring': pred_jimp_coloring}
 
 
 def replay(ctx):
@@ -360,7 +383,7 @@ def replay(ctx):
 
 def run(ctx):
     global _RECS, _WORK
-    ctx.register_predicates({'C34-jax-auto-sparsity-stale': pred_jax_stale_sparsity})
+    ctx.register_predicates(PREDS)
     if getattr(ctx, 'replay', None):
         return replay(ctx)
     quick = ctx.tier == 'quick'
@@ -402,8 +425,10 @@ def run(ctx):
                 jax_sel.append(by_kind[k].pop())
     jobs = cs_jobs[:n_cs] + jax_sel
     for j in jobs:
-        # a coloring declared by the user is only valid where the sparsity does not change: one point for max/min
-        if j[1]['col'] and has_branch(recs[j[0]]):
+        # The property quantifies over smooth functions.  Trees with maximum/minimum/abs are still replayed (away from
+        # their kinks), but only at one point where the component samples a sparsity pattern at its first linearization
+        # (declared coloring; jax components, which also drop sub-Jacobians that are entirely zero at that point).
+        if nonsmooth(recs[j[0]]) and (j[1]['col'] or j[1]['kind'] in ('jexp', 'jimp')):
             j[1]['npts'] = 1
     rnd.shuffle(jobs)
     nchunks = nproc * 6
@@ -424,8 +449,10 @@ def run(ctx):
             ctx.note_nontrivial('%d/%s' % (o['i'], json.dumps(cfg, sort_keys=True)))
         for f in o['fails'][:1]:
             scn = {'source': o['src'], 'cfg': cfg, 'pts': o['pts'], 'yvals': o['yvals'], 'point': f[3],
-                   'branch': has_branch(rec), 'rec': {k: rec[k] for k in ('e', 'd', 'dom', 'vars')}}
-            cl = 'C34-jax-auto-sparsity-stale' if pred_jax_stale_sparsity(scn, {}) else '%s: %s' % (cfg['kind'], f[0])
+                   'branch': nonsmooth(rec), 'rec': {k: rec[k] for k in ('e', 'd', 'dom', 'vars')}}
+            inf = {'clause': f[0], 'observed': f[2]}
+            cl = [k for k, pr in PREDS.items() if pr(scn, inf)]
+            cl = cl[0] if cl else '%s/%s: %s' % (cfg['kind'], cfg['meth'], f[0])
             classes[cl] = classes.get(cl, 0) + 1
             ctx.violation(scn, f[1], f[2], f[0], snippet=snippet(rec, cfg, o['pts'], o['yvals']))
     if nrun == 0:
@@ -456,8 +483,9 @@ def run(ctx):
         'method=cs scenarios exclude trees with abs / arctan2 (numpy.abs and numpy.arctan2 are not complex-step safe: the '
         'wrapped function, not the component, would be at fault)',
         'method=fd is not compared (not exact; C12 covers the approximation schemes)',
-        'a coloring declared by the user is assumed valid only where the sparsity is constant: trees with maximum/minimum '
-        'are evaluated at one point when declare_coloring is used',
+        'the property quantifies over smooth functions: trees with maximum/minimum/abs are evaluated at a single point '
+        'whenever the component samples its sparsity at the first linearization (declare_coloring; every jax component, '
+        'which deletes sub-Jacobians that are entirely zero at that point - repository tests rely on that pruning)',
         'points keep a margin of %.2f from kinks, ties, poles and domain boundaries; tolerance 1e-9 x the largest '
         'intermediate magnitude' % c14.MARGIN,
         'implicit components: residuals and d residual / d (inputs, state) are compared; no nonlinear / linear solve']
